@@ -466,17 +466,26 @@ func (e *Engine) bytesEqual(fr *Frame, s *State, av, bv Value, pos string) (*Ter
 		return e.st.False(), false
 	}
 	n := int(a.Len.Val.Int64())
-	r := e.st.True()
 	sec := false
+	if n == 0 {
+		return e.st.True(), false
+	}
+	// compare as one wide value: slices of a single term recombine (concat of adjacent extracts), which keeps
+	// "all bytes of T are zero" as one equation instead of n byte equations
+	var wa, wb *Term
 	for k := 0; k < n; k++ {
 		x := e.load(s, e.ptrAdd(a.P, k), leafT, pos, fr).(*Term)
 		y := e.load(s, e.ptrAdd(b.P, k), leafT, pos, fr).(*Term)
 		if x.Sec || y.Sec {
 			sec = true
 		}
-		r = e.st.And(r, e.st.Eq(x, y))
+		if wa == nil {
+			wa, wb = x, y
+		} else {
+			wa, wb = e.st.Concat(x, wa), e.st.Concat(y, wb)
+		}
 	}
-	return r, sec
+	return e.st.Eq(wa, wb), sec
 }
 
 // loadGuarded loads a byte that may lie outside a blob's symbolic length (value irrelevant then).
